@@ -547,7 +547,8 @@ func localErrorDiscipline(c *Ctx, rule string, fn *ssa.Function, errCalls []ssa.
 	}
 	// branch rule: for every nil test of the error, explore the paths that start on the non-nil side (nothing inlined,
 	// no panics forked); each must return a non-nil error (or panic / exit)
-	cfg := PathConfig{P: p, Inline: func(*ssa.Function) bool { return false }, MayPanic: func(ssa.CallInstruction, types.Object) bool { return false }, MaxPaths: 5000,
+	// small module helpers (`return closeWithError(ch, err)`) are interpreted: they hand the error on
+	cfg := PathConfig{P: p, Inline: func(f *ssa.Function) bool { return IsModuleFunc(f) && f.Blocks != nil && len(f.Blocks) <= 4 && f != fn }, MayPanic: func(ssa.CallInstruction, types.Object) bool { return false }, MaxPaths: 5000,
 		ResultHint: func(callee types.Object, idx int) Nilness {
 			switch funcFullName(callee) {
 			case "errors.New", "fmt.Errorf":
